@@ -125,6 +125,7 @@ var curatedGrammars = []string{
 	// printed as literals); the same with optional lists and with rule elements
 	"s = A L(B,C) D L(E,C)", "s = A L(B,C)? D L(E,C)? A", "s = L(x,C) D L(y,C); x = A B; y = A E",
 	// two lists over the SAME element with DIFFERENT separators (the helper rule is per element AND separator), plain and optional
+	"s = A? b+; b = L(B,C)", // the grammar the end-to-end sugar theorems are instantiated on (Lox.Props.C01.exE2E)
 	"s = LB L(item,COMMA) RB | LP L(item,SEMI) RP; item = A | B", "s = A L(B,C) D L(B,E)", "s = L(x,COMMA)? SEMI L(x,BAR)? SEMI L(x,COMMA); x = A",
 	// names: rule names that sort before token names (worklist order in ConstructLALR), nesting with a self-loop state
 	"Doc = Expr; Expr = OPEN Expr CLOSE | NUM", "Aa = Bb ZZ | YY Bb XX; Bb = WW Bb VV | UU | @empty",
